@@ -145,6 +145,8 @@ RuleVal(r, args, inst, oname, ci, couts, fc) ==
       [] r.k = "fmissing" -> VFile(inst, oname \o ".missing", fc)   \* names a file that was never written
       [] r.k = "flink" -> VFile(inst, oname \o ".lnk", fc)          \* a symbolic link to a file of the stage
       [] r.k = "flink2" -> VFile(inst, oname \o ".lnk2", fc)        \* a chain of relative links through sub-directories
+      [] r.k = "fplink" -> VFile(inst, oname \o ".plnk", fc)       \* a relative link to the first file among the arguments
+      [] r.k = "foutside" -> VFile(inst, oname \o ".outside", fc)  \* a file written outside the pipestance directory
       [] r.k = "fsm" -> VObj(("label" :> VStr("x")) @@ ("m" :> VObj("k" :> VInt(1))) @@ ("f" :> VFile(inst, oname \o "_f", fc)))
       [] r.k = "dir"   -> VFile(inst, oname \o ".d", fc)      \* a directory holding two files
       [] r.k = "fstruct" -> VObj(("f" :> VFile(inst, oname \o "_f", fc)) @@ ("n" :> VInt(7)))
@@ -155,6 +157,8 @@ RuleVal(r, args, inst, oname, ci, couts, fc) ==
       [] r.k = "len" -> IF args[r.src].k = "arr" THEN VInt(Len(args[r.src].a)) ELSE VInt(0)
       [] r.k = "arr2" -> IF args[r.src].k = "int"
                          THEN VArr(<<VInt(args[r.src].i * 10), VInt(args[r.src].i * 10 + 1)>>) ELSE Null
+      [] r.k = "arrn" -> IF args[r.src].k = "int"     \* n elements
+                         THEN VArr([i \in 1..args[r.src].i |-> VInt(args[r.src].i * 10 + i)]) ELSE Null
 
 ChunkCount(st, args) ==
     IF ~st.split THEN 1
